@@ -620,21 +620,28 @@ def initLenSize : Format → Nat
   | .dwarf32 => 4
   | .dwarf64 => 12
 
+/-- the root as pass 1 and pass 2 see it: `DW_AT_stmt_list` fixed up, base types first -/
+def unitRoot (u : UnitIn) : Tree := reorderBaseTypes (prepRoot u.lineProgram u.root)
+
+/-- the state `calculate_offsets` starts from: first entry at `start`, nothing assigned yet -/
+def p1Init (start unitOff n : Nat) : P1 :=
+  { offset := start, offs := { unit := unitOff, n := n, map := fun _ => none },
+    abbrevs := [], codes := fun _ => none }
+
+/-- what pass 2 reads: the tables pass 1 produced -/
+def unitCtx (e : Endian) (strOffs lineStrOffs : List Nat) (u : UnitIn) (p1 : P1) : Ctx :=
+  { endian := e, enc := u.enc, offs := p1.offs, codes := p1.codes, lineProgram := u.lineProgram,
+    strOffsets := strOffs, lineStrOffsets := lineStrOffs }
+
 /-- `Unit::write` followed by `abbrevs.write(&mut sections.debug_abbrev)`; returns the new
 sections and the unit's final `UnitOffsets` -/
 def writeUnit (e : Endian) (strOffs lineStrOffs : List Nat) (s : Sec) (u : UnitIn) : Out (Sec × Offs) := do
   let c := u.enc
-  let root := prepRoot u.lineProgram u.root
   let unitOff := s.info.length
   let hdr ← unitHeader e c s.abbr.length
-  let root := reorderBaseTypes root
   let start := unitOff + initLenSize c.format + hdr.length
-  let p1 ← calcTree c
-    { offset := start, offs := { unit := unitOff, n := u.nEntries, map := fun _ => none },
-      abbrevs := [], codes := fun _ => none } root
-  let cx : Ctx := { endian := e, enc := c, offs := p1.offs, codes := p1.codes,
-                    lineProgram := u.lineProgram, strOffsets := strOffs, lineStrOffsets := lineStrOffs }
-  let em ← emitTree cx start root
+  let p1 ← calcTree c (p1Init start unitOff u.nEntries) (unitRoot u)
+  let em ← emitTree (unitCtx e strOffs lineStrOffs u p1) start (unitRoot u)
   let lenField ← writeInitialLength e c.format (hdr.length + em.bytes.length)
   let info := s.info ++ lenField ++ hdr ++ em.bytes
   let info ← patchUnitRefs e c.word p1.offs info em.urefs
